@@ -743,8 +743,7 @@ func (f *Fix) ibcAckCls(pkt channeltypes.Packet, ack []byte, ph uint64, relayer 
 	}
 	err := f.Try(func(ctx sdk.Context) error {
 		f.deleteCommitment(ctx, pkt)
-		uid := commontypes.NewPacketUID(commontypes.RollappPacket_ON_ACK, pkt.SourcePort, pkt.SourceChannel, pkt.Sequence)
-		ctx = commontypes.CtxWithPacketProofHeight(ctx, uid, clienttypes.NewHeight(1, ph))
+		ctx = f.proofCtx(ctx, commontypes.RollappPacket_ON_ACK, pkt, ph)
 		return f.App.TransferStack.OnAcknowledgementPacket(ctx, pkt, ack, relayer)
 	})
 	return pkClass(err)
@@ -757,8 +756,7 @@ func (f *Fix) ibcTimeoutCls(pkt channeltypes.Packet, ph uint64, relayer sdk.AccA
 	}
 	err := f.Try(func(ctx sdk.Context) error {
 		f.deleteCommitment(ctx, pkt)
-		uid := commontypes.NewPacketUID(commontypes.RollappPacket_ON_TIMEOUT, pkt.SourcePort, pkt.SourceChannel, pkt.Sequence)
-		ctx = commontypes.CtxWithPacketProofHeight(ctx, uid, clienttypes.NewHeight(1, ph))
+		ctx = f.proofCtx(ctx, commontypes.RollappPacket_ON_TIMEOUT, pkt, ph)
 		return f.App.TransferStack.OnTimeoutPacket(ctx, pkt, relayer)
 	})
 	return pkClass(err)
